@@ -12,4 +12,4 @@ GROUPS = [
 ASSUMPTIONS = ['A5 |counter|, waiters and posts in flight below 2^30',
                'park/unpark contract (mpmc variant, DESIGN.md 4.2) TRUSTED here: wake_from_mpmc_queue(…,0) pops at most one announced waiter; enforced under C01']
 # obligation groups of other properties' specifications that this property also rests on (its anchors name those files); see DESIGN.md 11.2
-IMPORTS = [dict(prop='C01', groups=['wait_in_mpmc', 'wake_from_mpmc', 'maintenance', 'maintenance_migrating_unlock']), dict(prop='C13', groups=['fifo_trypop', 'fifo_push'])]
+IMPORTS = [dict(prop='C01', groups=['wait_in_mpmc', 'wake_from_mpmc', 'maintenance', 'maintenance_migrating_unlock', 'node_pool']), dict(prop='C13', groups=['fifo_trypop', 'fifo_push', 'fifo_init'])]
